@@ -86,6 +86,28 @@ def respond (ready : Bool) (mode : Mode) (membersUp : Nat) (planOk : Bool) (loca
     | .ok => .ok distribute reason
     | e => .error (statusOfExec e)
 
+/-! ### mode vocabularies and size constants (hand-written copies used by the driver; `IQE.Props.C35` /
+     `IQE.Props.C34` prove them equal to the translator-generated `IQE.Gen.FrontDoor` definitions) -/
+
+/-- `DistMode::parse`'s value table (server.rs): `?distributed=<v>` -/
+def parseModeHttp (v : String) : Option Mode :=
+  if v = "1" ∨ v = "true" ∨ v = "yes" ∨ v = "force" then some .force
+  else if v = "0" ∨ v = "false" ∨ v = "no" ∨ v = "local" then some .off
+  else if v = "auto" then some .auto
+  else none
+
+/-- `parse_mode` (flight.rs): the HTTP vocabulary plus "off" -/
+def parseModeFlight (v : String) : Option Mode :=
+  if v = "auto" then some .auto
+  else if v = "1" ∨ v = "true" ∨ v = "yes" ∨ v = "force" then some .force
+  else if v = "0" ∨ v = "false" ∨ v = "no" ∨ v = "local" ∨ v = "off" then some .off
+  else none
+
+/-- `flight::MAX_ENCODE_ROWS` -/
+def maxEncodeRows : Nat := 4096
+/-- `flight::MAX_TICKET_BYTES` -/
+def maxTicketBytes : Nat := 1024 * 1024
+
 /-! ### the `/sql` request as a whole -/
 
 /-- `query.split('&')`, `pair.split_once('=')`, first pair whose key is `key` (a pair without '=' is skipped) -/
